@@ -65,6 +65,26 @@ Theorem C01_file_checksums : forall n, spdx_hash_class (n_hashes n) ->
 Proof. exact spdx_file_hashes. Qed.
 Print Assumptions C01_file_checksums.
 
+(* external references of the reference types SPDX carries (URL, comment, type) and package identifiers
+   of the four kinds SPDX spells (purl, CPE 2.2, CPE 2.3, gitoid) come back unchanged — both travel
+   in one externalRefs list and are told apart again on reading *)
+Theorem C01_package_external_references : forall parse_time fmt_time n,
+  Forall spdx_extref_class (n_external_references n) -> spdx_ident_class (n_identifiers n) ->
+  n_external_references (pkg_to_node parse_time (node_to_pkg fmt_time n)) = n_external_references n.
+Proof. exact spdx_package_external_references. Qed.
+Print Assumptions C01_package_external_references.
+
+Theorem C01_package_identifiers : forall parse_time fmt_time n,
+  Forall spdx_extref_class (n_external_references n) -> spdx_ident_class (n_identifiers n) ->
+  n_identifiers (pkg_to_node parse_time (node_to_pkg fmt_time n)) = n_identifiers n.
+Proof. exact spdx_package_identifiers. Qed.
+Print Assumptions C01_package_identifiers.
+
+Theorem C01_identifier_kinds_in_class : forallb ident_kind_ok
+  [SoftwareIdentifierType_PURL; SoftwareIdentifierType_CPE22; SoftwareIdentifierType_CPE23; SoftwareIdentifierType_GITOID] = true.
+Proof. exact four_identifier_kinds. Qed.
+Print Assumptions C01_identifier_kinds_in_class.
+
 (* first supplier and first originator *)
 Theorem C01_first_supplier_and_originator : forall parse_time p r,
   client_string p <> "" -> client_string p <> NOASSERTION ->
